@@ -62,3 +62,36 @@ impl FindVisitor {
     #[verifier::external_body]
     pub fn visit_pattern(&mut self, p: Item) ensures final(self).pos == old(self).pos { unimplemented!() }
 }
+
+// ---- Suggest::on_pattern, the as-pattern arm (`x@p`): editor queries run on programs that may NOT type check
+#[verifier::external_body] pub struct TypeEnvRef { _p: () }
+#[verifier::external_body] pub struct Ty { _p: () }
+#[verifier::external_body] pub struct TyErr { _p: () }
+#[verifier::external_body] pub struct Sym { _p: () }
+#[verifier::external_body] pub struct Pat { _p: () }
+pub uninterp spec fn well_typed(p: Pat) -> bool;
+impl Pat {
+    // base/src/types: `try_type_of` is total; `env_type_of` = `try_type_of(..).unwrap()` panics on an ill-typed pattern
+    #[verifier::external_body]
+    pub fn try_type_of(&self, env: &TypeEnvRef) -> (r: Result<Ty, TyErr>) ensures well_typed(*self) ==> r is Ok { unimplemented!() }
+    #[verifier::external_body]
+    pub fn env_type_of(&self, env: &TypeEnvRef) -> Ty requires well_typed(*self) { unimplemented!() }
+}
+pub struct Type;
+impl Type {
+    #[verifier::external_body]
+    pub fn hole() -> Ty { unimplemented!() }
+}
+pub struct SpannedSym { pub value: Sym }
+impl Clone for Sym { #[verifier::external_body] fn clone(&self) -> (r: Sym) ensures r == *self { unimplemented!() } }
+#[verifier::external_body] pub struct ScopedMap { _p: () }
+impl ScopedMap {
+    #[verifier::external_body]
+    pub fn insert(&mut self, k: Sym, v: Ty) { unimplemented!() }
+}
+pub struct Suggest { pub stack: ScopedMap, pub env: TypeEnvRef }
+impl Suggest {
+    // the recursive step
+    #[verifier::external_body]
+    pub fn on_pattern(&mut self, p: &Pat) { unimplemented!() }
+}
